@@ -39,7 +39,8 @@ Section Local5.
     - unfold retp, mod_deregister, dereg_fuel. rewrite Nat.add_comm. cbn [Nat.add]. rewrite emit_mod_assert, Ha. cbn [fst snd]. apply refused_intro; exact Hn.
     - unfold retp, tell_step. rewrite Hpm'. cbn [fst snd]. apply refused_intro; exact Hn.
     - match goal with |- context [if ?b then _ else _] => destruct b end; [apply refused_intro; auto|].
-      unfold retp, register_mod_src. rewrite emit_mod_assert, Ha. cbn [fst snd]. apply refused_intro; exact Hn.
+      match goal with |- context [if ?b then _ else _] => destruct b end;
+        unfold retp, register_dup_fd, register_mod_src; rewrite emit_mod_assert, Ha; cbn [fst snd]; apply refused_intro; exact Hn.
     - match goal with |- context [if ?b then _ else _] => destruct b end; [apply refused_intro; auto|].
       destruct k; try (apply refused_intro; auto; fail); try discriminate; injection Hh as ->;
         unfold retp, deregister_mod_src; rewrite emit_mod_assert, Ha; cbn [fst snd]; apply refused_intro; exact Hn.
